@@ -57,7 +57,11 @@ package utils
 //@   modifies Store
 //@   ensures Store == upd(old(Store), keyOf(old(bytes(key))), Some(rawItem(old(bytes(value)))))
 
+// activation table of the deployed network (hard-fork heights): the harmony, hsc and bytom routers are
+// active on main net from block 18823000; every other router, and every router off main net, is active always
+//@ spec routerActive(router uint64, block uint32) bool = !((router == HARMONY_ROUTER || router == HSC_ROUTER || router == BYTOM_ROUTER) && config.DefConfig.P2PNode.NetworkId == config.NETWORK_ID_MAIN_NET && block < 18823000)
+
 //@ func CheckRouterStartBlock
 //@   property C21
-//@   mode abstract
-//@   modifies nothing
+//@   requires config.DefConfig != nil && config.DefConfig.P2PNode != nil
+//@   ensures[c21-router-start] err == nil <==> routerActive(router, block)
